@@ -508,7 +508,10 @@ class ExtremumRegistry(object):
         a = self.atoms.get(key)
         if a is None:
             name = "%s[%d]" % (which.upper(), len(self.atoms))
-            const = z3.Real(name) if z3.is_real(cbody) else z3.Int(name)
+            if which == 'any':
+                const = z3.Bool(name)
+            else:
+                const = z3.Real(name) if z3.is_real(cbody) else z3.Int(name)
             a = ExtremumAtom(const, n, J, cbody, which)
             self.atoms[key] = a
             self.by_const[const.get_id()] = a
